@@ -268,6 +268,26 @@ def explore_shard(acc, shard):
                         if fails:
                             report(acc, layer, {"kind": "text", "text": text}, fails)
         acc.sample(layer, {"text": text})
+    elif kind == "R":
+        # measures of 256, 384, 768 and 20 rows: beats with denominators 64, 96, 192, 5 (ordering and arithmetic)
+        layer = "F large and odd row counts"
+        for nrows in (256, 384, 768, 20, 7):
+            for players in (1, 2):
+                rows = ["00"] * nrows
+                for r in (0, 1, 2, 3, nrows // 3, nrows // 2, nrows - 2, nrows - 1):
+                    rows[r] = "1M" if r % 2 else "01"
+                sections = [[rows, ["10", "00", "01"]]] * players
+                text = N.render(sections)
+                core.guard(acc, {"kind": "text", "text": text[:100]})
+                fails = check_text(text, N.intended_notes(sections), 2, deep=False)
+                acc.count("evaluations")
+                acc.count("states")
+                acc.count("transitions")
+                acc.count("nontrivial")
+                acc.outcome("measure with more than 192 rows")
+                if fails:
+                    report(acc, layer, {"kind": "text", "text": text}, fails)
+        acc.sample(layer, {"rows_per_measure": [256, 384, 768, 20, 7]})
     elif kind == "W":
         layer = "K wide rows (1..16 columns, one note walked)"
         for cols in range(1, 17):
@@ -341,7 +361,7 @@ def explore_shard(acc, shard):
 
 
 def pair_positions():
-    return [(p, b, c) for p in (0, 1, 2) for b in (Fraction(0), Fraction(1, 3), Fraction(1), Fraction(4)) for c in (0, 1, 2)]
+    return [(p, b, c) for p in (0, 1, 2) for b in (Fraction(0), Fraction(1, 3), Fraction(1), Fraction(65, 64), Fraction(97, 96), Fraction(4)) for c in (0, 1, 2)]
 
 
 def pair_notes():
@@ -368,6 +388,7 @@ def explore(run):
     for first in N.KS_CELLS:
         shards.append(("K", first))
     shards.append(("W",))
+    shards.append(("R",))
     for i in range(len(pair_notes())):
         shards.append(("P", i))
     shards += [("corpus", i) for i in range(len(N.corpus_charts()))]
